@@ -328,6 +328,14 @@ class World:
         from aioslsk.protocol.primitives import PotentialParent
         S = list(S)
         self._need_session()
+        # bound of the model (PotentialParents requires conn[p] = "none"): at most one distributed
+        # connection per peer - the server proposes only peers we have no link with and no attempt to.
+        # The model and the execution can disagree on that (e.g. the model rejected a child the code
+        # accepted because the concrete speed allowed more children); then the rest is dropped.
+        for pid in S:
+            ps = self.peers[pid]
+            if self._link_state(ps) != 'none' or (ps.gate is not None and not ps.gate.done()):
+                raise Infeasible('peer already has a distributed link or a pending attempt')
         for pid in S:
             self.peers[pid].gate = self.loop.create_future()
         self.rec(ev='pp', S=S)
@@ -339,6 +347,8 @@ class World:
         if ps.gate is None or ps.gate.done():
             ps.gate = None
             raise Infeasible('no pending attempt')
+        if ok and self._link_state(ps) != 'none':
+            raise Infeasible('link exists')
         self.rec(ev='attempt', p=pid, ok=bool(ok))
         ps.gate.set_result('ok' if ok else 'refuse')
         ps.gate = None
@@ -347,6 +357,8 @@ class World:
         ps = self.peers[pid]
         if self._link_state(ps) != 'none':
             raise Infeasible('link exists')
+        if ps.gate is not None and not ps.gate.done():
+            raise Infeasible('an attempt to this peer is pending')
         self.rec(ev='incoming', p=pid, slow=bool(slow))
         ep = await self.net.dial(CLIENT_PORT)
         self._adopt(ps, ep, 1, False, False)
